@@ -72,19 +72,27 @@ func isSepByte(c byte) bool {
 	return !strings.ContainsRune("._%-", rune(c))
 }
 
-type maskMemo map[[2]int]bool
+// maskMemo memoises matchFrom over (pos, token index): 0 unknown, 1 true, 2 false.
+type maskMemo struct {
+	w int
+	v []int8
+}
 
-func (m refMask) matchFrom(s string, pos, ti int, mc bool, memo maskMemo) bool {
-	key := [2]int{pos, ti}
-	if v, ok := memo[key]; ok {
-		return v
+func (m refMask) matchFrom(s string, pos, ti int, mc bool, memo *maskMemo) bool {
+	k := pos*memo.w + ti
+	if v := memo.v[k]; v != 0 {
+		return v == 1
 	}
 	res := m.matchFrom1(s, pos, ti, mc, memo)
-	memo[key] = res
+	if res {
+		memo.v[k] = 1
+	} else {
+		memo.v[k] = 2
+	}
 	return res
 }
 
-func (m refMask) matchFrom1(s string, pos, ti int, mc bool, memo maskMemo) bool {
+func (m refMask) matchFrom1(s string, pos, ti int, mc bool, memo *maskMemo) bool {
 	if ti == len(m.toks) {
 		return !m.endA || pos == len(s)
 	}
@@ -130,7 +138,7 @@ func (m refMask) match(s string, mc bool) bool {
 	if m.any {
 		return true
 	}
-	memo := maskMemo{}
+	memo := &maskMemo{w: len(m.toks) + 1, v: make([]int8, (len(s)+1)*(len(m.toks)+1))}
 	if m.startURL {
 		for _, sch := range []string{"http", "https", "ws", "wss"} {
 			pre := sch + "://"
